@@ -131,3 +131,41 @@ async fn verif_model_syncer_batches() {
     }
     println!("ENUM-OK cases={checked}");
 }
+
+// Worker-level witness finder for C25: headers 1..=OLD are older than the sampling window (by 30 minutes) but younger than
+// the pruning window, the rest are fresh. With the network head stored, a batch may be scheduled below the stored run
+// only if the lowest stored header is still inside the sampling window.
+#[async_test]
+async fn verif_model_syncer_window() {
+    let seed: u64 = std::env::var("VERIF_SEED").ok().and_then(|s| s.parse().ok()).unwrap_or(0);
+    let rounds: u64 = std::env::var("VERIF_ROUNDS").ok().and_then(|s| s.parse().ok()).unwrap_or(40).min(200);
+    let old = 300u64; let n = 600u64;
+    let mut generator = ExtendedHeaderGenerator::new();
+    generator.set_time((Time::now() - (SAMPLING_WINDOW + Duration::from_secs(30 * 60))).unwrap(), Duration::from_secs(1));
+    let mut headers = generator.next_many(old);
+    generator.reset_time();
+    headers.append(&mut generator.next_many(n - old));
+    let mut checked = 0u64;
+    for round in 0..rounds {
+        let mut rng = XorShiftS(0x94D049BB133111EB ^ seed.wrapping_mul(7877).wrapping_add(round + 1));
+        let (mock, mut _handle) = P2p::mocked();
+        _handle.announce_peer_connected();
+        let store = Arc::new(InMemoryStore::new());
+        let events = EventChannel::new();
+        let (_cmd_tx, cmd_rx) = mpsc::channel(4);
+        let mut worker = Worker::new(SyncerArgs { p2p: Arc::new(mock), store: store.clone(), event_pub: events.publisher(), batch_size: 64, sampling_window: SAMPLING_WINDOW, pruning_window: SAMPLING_WINDOW + Duration::from_secs(3600) }, CancellationToken::new(), cmd_rx).unwrap();
+        let lo = old - 20 + rng.below(40);            // around the window edge (header `old` is the last old one)
+        store.insert(headers[(lo - 1) as usize..n as usize].to_vec()).await.unwrap();
+        worker.subjective_head_height = Some(n);
+        worker.fetch_next_batch().await.unwrap();
+        let got = worker.ongoing_batch.range.clone();
+        let edge_is_old = lo <= old;
+        checked += 1;
+        match (&got, edge_is_old) {
+            (Some(r), true) => { println!("WITNESS C25: the syncer scheduled {}..={} directly below stored header {lo}, which is older than the sampling window (30 min outside; pruning window 1 h larger) (seed {seed}, round {round})", r.start(), r.end()); panic!("witness"); }
+            (None, false) => { println!("WITNESS C24: nothing scheduled although stored header {lo} is inside the sampling window and heights below it are missing (seed {seed}, round {round})"); panic!("witness"); }
+            _ => {}
+        }
+    }
+    println!("ENUM-OK cases={checked}");
+}
